@@ -762,7 +762,10 @@ def gen_key(rng, table, wild=False):
             a = rng.choice(['^', '_', '=', '^', '_', ''])
             if wild and rng.random() < 0.1:
                 a = rng.choice(['^^', '__'])
-            eaccs.append([a, rng.choice('abcdefgABCDEFG')])
+            l = rng.choice('abcdefgABCDEFG')
+            if a == '' and l in 'bB' and not eaccs and not mode and not exp:
+                a = '='     # lexing hazard: 'K:A B' reads the B as a flat sign (KEY_PATTERN is IGNORECASE)
+            eaccs.append([a, l])
     return ['K', tonic, sep, mode, exp, eaccs]
 
 
